@@ -333,6 +333,13 @@ def configs(tier):
             worlds.append(C14Dst(scenario="dst_filestore_rejection_nodir", mode=mode, nak="imm", closure=True, size=size, seg=2, shape="nodir", ack_limit=2, nak_limit=2,
                                  faults_d={"FILESTORE_REJECTION": code},
                                  alphabet=[("md",), ("fd", 0, 2, 0), ("fd", 2, 1, 0), ("eof", size, "NO_ERROR", 1), ("tick",), ("ackfin",)], max_calls=7))
+        # disposition on cancellation with nothing to delete: the file was never created (missing directory), or the Metadata never arrived
+        worlds.append(C14Dst(scenario="dst_filestore_rejection_nodir_disposition", mode="unack", closure=True, size=size, seg=2, shape="nodir", disposition=True,
+                             faults_d={"FILESTORE_REJECTION": code},
+                             alphabet=[("md",), ("fd", 0, 2, 0), ("fd", 2, 1, 0), ("eof", size, "NO_ERROR", 1), ("tick",)], max_calls=6))
+        worlds.append(C14Dst(scenario="dst_nak_limit_no_metadata_disposition", mode="ack", nak="imm", size=size, seg=2, ack_limit=2, nak_limit=1, disposition=True,
+                             faults_d={"NAK_LIMIT_REACHED": code},
+                             alphabet=[("fd", 0, 2, 0), ("eof", size, "NO_ERROR", 1), ("tick",), ("expire",), ("ackfin",)], max_calls=9))
         # ... or because the resolved path is a directory (destination directory holding a directory with the source's base name)
         worlds.append(C14Dst(scenario="dst_filestore_rejection_dir_dir", mode="unack", closure=True, size=size, seg=2, shape="dir_dir", check_limit=1,
                              faults_d={"FILESTORE_REJECTION": code},
